@@ -106,9 +106,7 @@ def run(tier):
         explore.run(spec, report, tier, 8, 400000, 150)
     else:
         explore.run(spec, report, tier, 12, 3000000, 1800)
-    for viol in list(report.violations.values()):
-        if viol.replay and viol.replay.get("kind") == "history" and not explore.confirm(spec, viol):
-            raise HarnessError(f"violation {viol.signature} did not reproduce from its replay data")
+    e1check.confirm_all(spec, report)
     # TLA+ cross-check: every edge of TLC's complete state graph is replayed on the real gateway
     tlc = tlc_replay.replay_all(report)
     cov = report.coverage
